@@ -491,9 +491,11 @@ func TestVerifC10(t *testing.T) {
 		dbN++
 		path := filepath.Join(outDir, fmt.Sprintf("db%d.db", dbN))
 		s, db := vNewStore(t, path)
-		for _, k := range arrival {
+		addErrs := ""
+		for pos, k := range arrival {
 			if err := s.Add(evs[k].doc, evs[k].tx); err != nil {
-				t.Fatalf("Add failed: %v", err)
+				// an accepted transaction that the store refuses in this arrival order is an observable outcome
+				addErrs += fmt.Sprintf("adderr@%d(ev%d) ", pos, k)
 			}
 		}
 		opEvents, times, dids, known := vToOpEvents(evs)
@@ -510,7 +512,7 @@ func TestVerifC10(t *testing.T) {
 		b, _ := json.Marshal(op)
 		opsW.Write(b)
 		opsW.WriteByte('\n')
-		implW.WriteString(vObserve(s, evs, times, dids, known))
+		implW.WriteString(addErrs + vObserve(s, evs, times, dids, known))
 		implW.WriteByte('\n')
 		// restart: a fresh store object on the same database must give the same answers (conflicted cache reload)
 		s2 := New(&storage.StaticKVStoreProvider{Store: db}).(*store)
